@@ -102,6 +102,15 @@ func (in *inst) receive(p *plain) error {
 		in.r.Violation("wrong-size/receive", fmt.Sprintf("ReceiveBlob(%s, %d bytes) acknowledged %v", p.Ref, len(p.Data), sb),
 			map[string]any{"case_id": in.id, "plaintext": p.Ref.String(), "size": len(p.Data), "ack": sb.String()})
 	}
+	// which ciphertext blob holds p: the store's own index row says so ("<size>/<encrypted ref>");
+	// fall back to the first write this receive made to the wrapped blobs store
+	if v, err := in.kv.KeyValue.Get(p.Ref.String()); err == nil {
+		if i := strings.IndexByte(v, '/'); i >= 0 {
+			if enc, ok := blob.Parse(v[i+1:]); ok && in.blobs.raw(enc) != nil {
+				p.Enc = enc
+			}
+		}
+	}
 	for _, e := range in.blobs.eventsFrom(nb) {
 		if e.Op == "ReceiveBlob" && !e.Err && !p.Enc.Valid() {
 			p.Enc = e.Refs[0]
